@@ -9,7 +9,17 @@ use saphyr_parser::{Event, Input, Parser, ScalarStyle, ScanError, Tag};
 pub fn parse_many(s: &str) -> impl Iterator<Item = Result<Val, Error>> + '_ {
     let mut st = State::new(Parser::new_from_str(s));
     assert!(matches!(st.next(), Ok((Event::StreamStart, _))));
-    core::iter::from_fn(move || st.parse_stream_entry())
+    // the parser must not be polled again once it has reported the end of the stream
+    // or an error, e.g. when `input` consumes the last document before the main loop
+    let mut done = false;
+    core::iter::from_fn(move || {
+        if done {
+            return None;
+        }
+        let entry = st.parse_stream_entry();
+        done = !matches!(entry, Some(Ok(_)));
+        entry
+    })
 }
 
 /// Error span.
